@@ -11,6 +11,7 @@ theorem display_eq (fmt : F → String) (s : CommodityChannelIndex F) :
     display fmt s = "CCI(" ++ toString s.sma.period ++ ")" := rfl
 theorem default_eq : (default_ : Option (CommodityChannelIndex F)) = some (fresh 20) := by
   unfold default_
+  try simp only [gen_helper]
   rw [new_eq]
   simp [unwrap, isizeMax]
 
